@@ -212,11 +212,32 @@ class Check:
         }
         return path
 
-    def lake(self, args: list[str], timeout: int = 1800, input: str | None = None) -> tuple[int, str]:
+    @staticmethod
+    def _lean_lock(exclusive: bool):
+        """Checks may run in parallel (vf/thorough_all.sh runs four at a time) and share compiled modules: the thorough
+        tier deletes and rebuilds its modules' .olean files, so readers (drivers, axiom audit, leanchecker) hold a shared
+        lock and the delete+rebuild step holds an exclusive one."""
+        import contextlib
+        import fcntl
+
+        @contextlib.contextmanager
+        def cm():
+            os.makedirs(os.path.join(LEAN_DIR, ".lake"), exist_ok=True)
+            with open(os.path.join(LEAN_DIR, ".lake", "verif.lock"), "w") as f:
+                fcntl.flock(f, fcntl.LOCK_EX if exclusive else fcntl.LOCK_SH)
+                try:
+                    yield
+                finally:
+                    fcntl.flock(f, fcntl.LOCK_UN)
+
+        return cm()
+
+    def lake(self, args: list[str], timeout: int = 1800, input: str | None = None, lock: str | None = "sh") -> tuple[int, str]:
         env = dict(os.environ)
         env.pop("LEAN_PATH", None)
-        try:
-            p = subprocess.run(
+
+        def run() -> "subprocess.CompletedProcess[str]":
+            return subprocess.run(
                 ["lake"] + args,
                 cwd=LEAN_DIR,
                 capture_output=True,
@@ -225,6 +246,13 @@ class Check:
                 input=input,
                 env=env,
             )
+
+        try:
+            if lock is None:
+                p = run()
+            else:
+                with self._lean_lock(lock == "ex"):
+                    p = run()
         except subprocess.TimeoutExpired:
             raise HarnessError(f"lake {' '.join(args)} timed out after {timeout}s")
         return p.returncode, (p.stdout or "") + (p.stderr or "")
@@ -234,14 +262,15 @@ class Check:
         targets = [f"{LIB}.{m}" for m in modules]
         cmd = "cd lean && lake build " + " ".join(targets)
         self.checker_cmds.append(cmd)
-        if not self.quick:
-            # thorough: force a rebuild of the property's own modules
-            for m in modules:
-                for ext in ("olean", "ilean", "trace", "olean.hash", "ilean.hash"):
-                    p = os.path.join(LEAN_DIR, ".lake", "build", "lib", "lean", LIB, *m.split(".")) + "." + ext
-                    if os.path.exists(p):
-                        os.remove(p)
-        rc, out = self.lake(["build"] + targets)
+        with self._lean_lock(True):
+            if not self.quick:
+                # thorough: force a rebuild of the property's own modules
+                for m in modules:
+                    for ext in ("olean", "ilean", "trace", "olean.hash", "ilean.hash"):
+                        p = os.path.join(LEAN_DIR, ".lake", "build", "lib", "lean", LIB, *m.split(".")) + "." + ext
+                        if os.path.exists(p):
+                            os.remove(p)
+            rc, out = self.lake(["build"] + targets, lock=None)
         return rc == 0, out
 
     def forbidden_scan(self, modules: list[str]) -> list[str]:
@@ -317,6 +346,16 @@ class Check:
             cmd = "cd lean && lake env leanchecker " + " ".join(mods)
             self.checker_cmds.append(cmd)
             rc, out2 = self.lake(["env", "leanchecker"] + mods, timeout=3600)
+            for _ in range(2):
+                # a compiled module that is missing is a harness matter (another process removed it), not a rejection
+                if rc == 0 or not re.search(r"does not exist|No such file", out2):
+                    break
+                time.sleep(5)
+                with self._lean_lock(True):
+                    self.lake(["build"] + mods, lock=None)
+                rc, out2 = self.lake(["env", "leanchecker"] + mods, timeout=3600)
+            if rc != 0 and re.search(r"does not exist|No such file", out2):
+                raise HarnessError("leanchecker could not read a compiled module: " + out2[-300:])
             self.cov["leanchecker"] = "ok" if rc == 0 else out2[-400:]
             if rc != 0:
                 self.broken.append({"kind": "proof", "what": "leanchecker rejected compiled modules", "errors": [out2[-400:]]})
@@ -367,14 +406,15 @@ class Check:
     def _run_driver(self, path: str, inp: str, timeout: int) -> tuple[int, str]:
         env = dict(os.environ)
         try:
-            p = subprocess.run(
-                ["lake", "env", "lean", "--run", path],
-                cwd=LEAN_DIR,
-                input=inp.encode("utf-8"),
-                capture_output=True,
-                timeout=timeout,
-                env=env,
-            )
+            with self._lean_lock(False):
+                p = subprocess.run(
+                    ["lake", "env", "lean", "--run", path],
+                    cwd=LEAN_DIR,
+                    input=inp.encode("utf-8"),
+                    capture_output=True,
+                    timeout=timeout,
+                    env=env,
+                )
         except subprocess.TimeoutExpired:
             raise HarnessError(f"driver {path} timed out")
         if p.returncode != 0:
